@@ -788,6 +788,93 @@ theorem query_eq_spec (q : Query) (hx : PrefixExact t w)
       cases hsrt
     | lastModAsc => simp [Query.supported, hs] at hsup
 
+/-! ### no duplicates, whatever the matcher does -/
+
+def RefsNodup (l : List BlobMeta) : Prop := (l.map (·.ref)).Nodup
+
+theorem RefsNodup.sublist {l l' : List BlobMeta} (h : RefsNodup l) (hs : l'.Sublist l) : RefsNodup l' :=
+  List.Nodup.sublist (hs.map _) h
+
+theorem RefsNodup.perm {l l' : List BlobMeta} (h : RefsNodup l) (hp : l'.Perm l) : RefsNodup l' :=
+  (hp.map _).nodup_iff.mpr h
+
+theorem candidates_nodup (hw : RefsNodup w.blobs) (src : Src) : RefsNodup (candidates w src) := by
+  cases src <;> simp only [candidates, sortedPermanodes]
+  case lastmod => exact (hw.sublist List.filter_sublist).perm (isort_perm _ _)
+  case created => exact (hw.sublist List.filter_sublist).perm (isort_perm _ _)
+  case all => exact hw
+  all_goals exact hw.sublist List.filter_sublist
+
+/-- the sorting Query does after an enumeration that is not pre-sorted (query.go:1120-1164) -/
+def postSort (w : World) (c : Cons) (sort : SortT) (res : List BlobMeta) : Except Err (List BlobMeta) :=
+  match sort with
+  | .unspec | .unsorted | .map => .ok res
+  | .blobRefAsc => .ok (isort ltRef res)
+  | .createdDesc | .createdAsc =>
+    if !onlyMatchesPermanode c then .error .ctimeNonPermanode
+    else if res.length ≥ 2 && res.any (fun b => w.anyTime b.ref == 0) then .error .noTime
+    else if sort == .createdAsc then .ok (isort (fun a b => decide (w.anyTime a.ref < w.anyTime b.ref)) res)
+    else .ok (isort (fun a b => decide (w.anyTime b.ref < w.anyTime a.ref)) res)
+  | _ => .error .unsupportedSort
+
+theorem query_unfold (q : Query) :
+    query t w q =
+      if !validC q.c || q.c.isNil then .error .invalid else
+      match collect (matchC t w q.c)
+          (if q.plannedSort != .map && q.plannedLimit > 0 && (pickSource t q.c q.plannedSort).sorted
+            then some q.plannedLimit.toNat else none)
+          (candidates w (pickSource t q.c q.plannedSort)) [] St.init with
+      | .error e => .error e
+      | .ok res =>
+        if (pickSource t q.c q.plannedSort).sorted then .ok (pickSource t q.c q.plannedSort, res) else
+        match postSort w q.c q.plannedSort res with
+        | .error e => .error e
+        | .ok res =>
+          if q.plannedSort != .map && q.plannedLimit > 0 && res.length > q.plannedLimit.toNat
+          then .ok (pickSource t q.c q.plannedSort, res.take q.plannedLimit.toNat)
+          else .ok (pickSource t q.c q.plannedSort, res) := by
+  unfold query postSort
+  rfl
+
+theorem postSort_perm (c : Cons) (sort : SortT) (r r' : List BlobMeta) (h : postSort w c sort r = .ok r') :
+    r'.Perm r := by
+  cases sort <;> simp only [postSort] at h
+  all_goals first
+    | (cases h; exact List.Perm.refl _)
+    | (cases h; exact isort_perm _ _)
+    | cases h
+    | (split at h
+       · cases h
+       · split at h
+         · cases h
+         · first
+           | (cases h; exact isort_perm _ _)
+           | (split at h <;> (cases h; exact isort_perm _ _)))
+
+/-- **no blob is returned twice**: every enumeration visits a blob once, the callback collects a
+selection, sorting permutes, truncation selects -/
+theorem query_nodup (q : Query) (hw : RefsNodup w.blobs) (src : Src) (res : List BlobMeta)
+    (h : query t w q = .ok (src, res)) : RefsNodup res := by
+  rw [query_unfold] at h
+  split at h
+  · cases h
+  · split at h
+    · cases h
+    · rename_i r hc
+      obtain ⟨l', hl', hr⟩ := collect_sublist _ _ _ _ _ _ hc
+      have hr' : RefsNodup r := by
+        rw [hr]; simpa using (candidates_nodup w hw _).sublist hl'
+      split at h
+      · simp only [Except.ok.injEq, Prod.mk.injEq] at h
+        rw [← h.2]; exact hr'
+      · split at h
+        · cases h
+        · rename_i res' hps
+          have hres' : RefsNodup res' := hr'.perm (postSort_perm w _ _ _ _ hps)
+          split at h <;> simp only [Except.ok.injEq, Prod.mk.injEq] at h <;> rw [← h.2]
+          · exact hres'.sublist (List.take_sublist _ _)
+          · exact hres'
+
 end QuerySpec
 
 end Pk.Search
